@@ -129,3 +129,262 @@ theorem decRefU_fids (r : Nat) : Pres FidsSame (decRefU r) := by
   unfold decRefU; exact Pres.bind (decRef'_fids r) (fun _ => Pres.pure _)
 
 end P9.Session
+
+namespace P9.Session
+variable {R : Ctx → Ctx → Prop} [Rel R]
+
+theorem Pres.forEach {α : Type} (l : List α) (f : α → M Unit) (hf : ∀ a, Pres R (f a)) :
+    Pres R (forEach l f) := by
+  induction l with
+  | nil => exact Pres.pure _
+  | cons a as ih => unfold Session.forEach; exact Pres.bind (hf a) (fun _ => ih)
+
+/-! ### everything except the binding operations leaves the fid table alone -/
+
+theorem isDeleted_fids (r : Nat) : Pres FidsSame (isDeleted r) := by
+  unfold isDeleted
+  exact Pres.bind (getRef_fids r) (fun _ => Pres.bind (getNode_fids _) (fun _ => Pres.pure _))
+
+theorem lookupFidRaw_fids (fid : Nat) : Pres FidsSame (lookupFidRaw fid) := by
+  unfold lookupFidRaw
+  exact Pres.bind Pres.getS (fun _ => Pres.bind Pres.getConn (fun _ => Pres.pure _))
+
+theorem lookupFid_fids (fid : Nat) : Pres FidsSame (lookupFid fid) := by
+  unfold lookupFid
+  refine Pres.bind (lookupFidRaw_fids fid) (fun o => ?_)
+  cases o with
+  | none => exact Pres.pure _
+  | some r => exact Pres.bind (incRef_fids r) (fun _ => Pres.pure _)
+
+theorem withFid_fids (fid : Nat) (body : Nat → M Reply) (hb : ∀ r, Pres FidsSame (body r)) :
+    Pres FidsSame (withFid fid body) := by
+  unfold withFid
+  refine Pres.bind (lookupFid_fids fid) (fun o => ?_)
+  cases o with
+  | none => exact Pres.pure _
+  | some r => exact Pres.finally' (hb r) (decRefU_fids r)
+
+theorem connMsize_fids : Pres FidsSame connMsize := by
+  unfold connMsize
+  exact Pres.bind Pres.getS (fun _ => Pres.bind Pres.getConn (fun _ => Pres.pure _))
+
+end P9.Session
+
+namespace P9.Session
+
+theorem newRef_fids (r : Ref) : Pres FidsSame (newRef r) := fun _ => ⟨rfl, rfl, rfl⟩
+theorem newNode_fids : Pres FidsSame newNode := fun _ => ⟨rfl, rfl, rfl⟩
+theorem newHandle_fids : Pres FidsSame newHandle := fun _ => ⟨rfl, rfl, rfl⟩
+
+theorem whenSome_fids {α : Type} (o : Option α) (f : α → M Unit) (hf : ∀ a, Pres FidsSame (f a)) :
+    Pres FidsSame (whenSome o f) := by
+  unfold whenSome; split
+  · exact hf _
+  · exact Pres.pure _
+
+theorem panicIf_fids (b : Bool) : Pres FidsSame (panicIf b) := by
+  unfold panicIf; exact Pres.ite Pres.goPanic (Pres.pure _)
+
+theorem pathNodeFor_fids (n : Nat) (name : SafeName) : Pres FidsSame (pathNodeFor n name) := by
+  unfold pathNodeFor
+  refine Pres.bind (getNode_fids n) (fun nd => ?_)
+  split
+  · exact Pres.pure _
+  · exact Pres.bind newNode_fids (fun _ => Pres.bind (setNode_fids _ _) (fun _ => Pres.pure _))
+
+theorem addChild_fids (n r : Nat) (name : SafeName) : Pres FidsSame (addChild n r name) := by
+  unfold addChild
+  refine Pres.bind (getNode_fids n) (fun nd => ?_)
+  exact Pres.ite Pres.goPanic (setNode_fids _ _)
+
+theorem nameFor_fids (n r : Nat) : Pres FidsSame (nameFor n r) := by
+  unfold nameFor
+  refine Pres.bind (getNode_fids n) (fun nd => ?_)
+  split
+  · exact Pres.pure _
+  · exact Pres.goPanic
+
+theorem notifyDelete_fids (fuel n : Nat) : Pres FidsSame (notifyDelete fuel n) := by
+  induction fuel generalizing n with
+  | zero => exact Pres.pure _
+  | succ f ih =>
+    unfold notifyDelete
+    refine Pres.bind (setNode_fids _ _) (fun _ => Pres.bind (getNode_fids _) (fun nd => ?_))
+    exact Pres.forEach _ _ (fun e => ih _)
+
+theorem markChildDeleted_fids (n : Nat) (name : SafeName) : Pres FidsSame (markChildDeleted n name) := by
+  unfold markChildDeleted
+  refine Pres.bind (getNode_fids n) (fun nd => Pres.bind (setNode_fids _ _) (fun _ => ?_))
+  split
+  · exact Pres.bind Pres.getS (fun _ => notifyDelete_fids _ _)
+  · exact Pres.pure _
+
+theorem callRenamed_fids (h p : Nat) (n : SafeName) : Pres FidsSame (callRenamed h p n) :=
+  fun _ => ⟨rfl, rfl, rfl⟩
+
+theorem notifyNameChange_fids (fuel n : Nat) : Pres FidsSame (notifyNameChange fuel n) := by
+  induction fuel generalizing n with
+  | zero => exact Pres.pure _
+  | succ f ih =>
+    unfold notifyNameChange
+    refine Pres.bind (getNode_fids _) (fun nd => Pres.bind ?_ (fun _ => ?_))
+    · refine Pres.forEach _ _ (fun e => Pres.bind (getRef_fids _) (fun x => ?_))
+      split
+      · exact Pres.bind (getRef_fids _) (fun _ => callRenamed_fids _ _ _)
+      · exact Pres.pure _
+    · exact Pres.forEach _ _ (fun e => ih _)
+
+theorem renameChildTo_fids (f : Nat) (o : SafeName) (t : Nat) (n : SafeName) :
+    Pres FidsSame (renameChildTo f o t n) := by
+  unfold renameChildTo
+  refine Pres.bind (getRef_fids _) (fun fx => Pres.bind (getRef_fids _) (fun tx => ?_))
+  refine Pres.bind (markChildDeleted_fids _ _) (fun _ => Pres.bind (getNode_fids _) (fun fnode => ?_))
+  refine Pres.bind (setNode_fids _ _) (fun _ => Pres.bind ?_ (fun _ => ?_))
+  · refine Pres.forEach _ _ (fun e => Pres.bind (getRef_fids _) (fun x => Pres.ite ?_ (Pres.pure _)))
+    refine Pres.bind (incRef_fids _) (fun _ => Pres.bind ?_ (fun _ => ?_))
+    · exact whenSome_fids _ _ (fun p => decRefU_fids p)
+    · refine Pres.bind (setRef_fids _ _) (fun _ => Pres.bind (incRef_fids _) (fun _ => ?_))
+      exact Pres.bind (addChild_fids _ _ _) (fun _ => Pres.bind (callRenamed_fids _ _ _) (fun _ => decRefU_fids _))
+  · split
+    · refine Pres.bind (getNode_fids _) (fun tn => ?_)
+      refine Pres.bind (panicIf_fids _) (fun _ => ?_)
+      exact Pres.bind (setNode_fids _ _) (fun _ => Pres.bind Pres.getS (fun _ => notifyNameChange_fids _ _))
+    · exact Pres.pure _
+
+theorem dirGuard_fids (r : Nat) : Pres FidsSame (dirGuard r) := by
+  unfold dirGuard
+  refine Pres.bind (getRef_fids _) (fun x => Pres.bind (isDeleted_fids _) (fun d => ?_))
+  exact Pres.ite (Pres.pure _) (Pres.ite (Pres.pure _) (Pres.pure _))
+
+end P9.Session
+
+namespace P9.Session
+
+theorem Pres.mono {R R' : Ctx → Ctx → Prop} {α : Type} {m : M α} (h : ∀ a b, R a b → R' a b)
+    (hm : Pres R m) : Pres R' m := by
+  intro c
+  have := hm c
+  cases hmc : m c with
+  | ok a c' => simp only [hmc] at this; exact h _ _ this
+  | panic c' => simp only [hmc] at this; exact h _ _ this
+
+/-- the fid bindings of *other* connections, the connection id and the fault switch are
+untouched (what the binding operations preserve). -/
+def OthersSame (c c' : Ctx) : Prop :=
+  c'.st.fids.filter (·.1.1 != c.conn) = c.st.fids.filter (·.1.1 != c.conn) ∧
+  c'.conn = c.conn ∧ c'.closeFaults = c.closeFaults
+
+instance : Rel OthersSame where
+  refl _ := ⟨rfl, rfl, rfl⟩
+  trans := by
+    intro a b c h1 h2
+    refine ⟨?_, h2.2.1.trans h1.2.1, h2.2.2.trans h1.2.2⟩
+    have := h2.1
+    rw [h1.2.1] at this
+    exact this.trans h1.1
+
+theorem fidsSame_othersSame (a b : Ctx) (h : FidsSame a b) : OthersSame a b :=
+  ⟨by rw [h.1], h.2.1, h.2.2⟩
+
+/-- lift a `FidsSame` fact -/
+theorem Pres.others {α : Type} {m : M α} (h : Pres FidsSame m) : Pres OthersSame m :=
+  Pres.mono fidsSame_othersSame h
+
+theorem filter_other_cons (l : List ((Nat × Nat) × Nat)) (conn fid r : Nat) :
+    (((conn, fid), r) :: l.filter (·.1 != (conn, fid))).filter (·.1.1 != conn) = l.filter (·.1.1 != conn) := by
+  simp only [List.filter_cons, bne_self_eq_false, Bool.false_eq_true, if_false, List.filter_filter]
+  apply List.filter_congr
+  intro x _
+  by_cases h : x.1.1 = conn
+  · simp [h]
+  · have : x.1 ≠ (conn, fid) := fun e => h (by rw [e])
+    simp [h, this]
+
+theorem filter_other_filter (l : List ((Nat × Nat) × Nat)) (conn fid : Nat) :
+    (l.filter (·.1 != (conn, fid))).filter (·.1.1 != conn) = l.filter (·.1.1 != conn) := by
+  simp only [List.filter_filter]
+  apply List.filter_congr
+  intro x _
+  by_cases h : x.1.1 = conn
+  · simp [h]
+  · have : x.1 ≠ (conn, fid) := fun e => h (by rw [e])
+    simp [h, this]
+
+theorem insertFid_others (fid r : Nat) : Pres OthersSame (insertFid fid r) := by
+  unfold insertFid
+  refine Pres.bind (Pres.others (lookupFidRaw_fids fid)) (fun orig => ?_)
+  intro c
+  simp only [bind, getConn, incRef, setRef, modS]
+  have key : OthersSame c { c with st := { c.st with
+      refs := c.st.refs.set r { (c.st.refs.getD r default) with refs := (c.st.refs.getD r default).refs + 1 },
+      fids := ((c.conn, fid), r) :: c.st.fids.filter (·.1 != (c.conn, fid)) } } :=
+    ⟨filter_other_cons _ _ _ _, rfl, rfl⟩
+  cases orig with
+  | none => exact key
+  | some o =>
+    simp only
+    have hp := Pres.others (decRefU_fids o) { c with st := { c.st with
+      refs := c.st.refs.set r { (c.st.refs.getD r default) with refs := (c.st.refs.getD r default).refs + 1 },
+      fids := ((c.conn, fid), r) :: c.st.fids.filter (·.1 != (c.conn, fid)) } }
+    cases hd : decRefU o { c with st := { c.st with
+      refs := c.st.refs.set r { (c.st.refs.getD r default) with refs := (c.st.refs.getD r default).refs + 1 },
+      fids := ((c.conn, fid), r) :: c.st.fids.filter (·.1 != (c.conn, fid)) } } with
+    | ok a c' => simp only [hd] at hp; exact Rel.trans key hp
+    | panic c' => simp only [hd] at hp; exact Rel.trans key hp
+
+theorem deleteFid_others (fid : Nat) : Pres OthersSame (deleteFid fid) := by
+  unfold deleteFid
+  refine Pres.bind (Pres.others (lookupFidRaw_fids fid)) (fun o => ?_)
+  cases o with
+  | none => exact Pres.pure _
+  | some r =>
+    intro c
+    simp only [bind, getConn, modS]
+    have key : OthersSame c { c with st := { c.st with fids := c.st.fids.filter (·.1 != (c.conn, fid)) } } :=
+      ⟨filter_other_filter _ _ _, rfl, rfl⟩
+    have hp := Pres.others (decRef'_fids r) { c with st := { c.st with fids := c.st.fids.filter (·.1 != (c.conn, fid)) } }
+    cases hd : decRef' r { c with st := { c.st with fids := c.st.fids.filter (·.1 != (c.conn, fid)) } } with
+    | ok a c' => simp only [hd] at hp; exact Rel.trans key hp
+    | panic c' => simp only [hd] at hp; exact Rel.trans key hp
+
+end P9.Session
+
+namespace P9.Session
+
+/-- `m` never panics -/
+def NoPanic {α : Type} (m : M α) : Prop := ∀ c, ∃ a c', m c = .ok a c'
+
+theorem NoPanic.pure {α : Type} (a : α) : NoPanic (pure a : M α) := fun c => ⟨a, c, rfl⟩
+theorem NoPanic.bind {α β : Type} {m : M α} {f : α → M β} (hm : NoPanic m) (hf : ∀ a, NoPanic (f a)) :
+    NoPanic (m >>= f) := by
+  intro c
+  obtain ⟨a, c1, h1⟩ := hm c
+  obtain ⟨b, c2, h2⟩ := hf a c1
+  exact ⟨b, c2, by simp only [Bind.bind, h1, h2]⟩
+theorem NoPanic.ite {α : Type} {p : Prop} [Decidable p] {a b : M α} (ha : NoPanic a) (hb : NoPanic b) :
+    NoPanic (if p then a else b) := by split <;> assumption
+theorem NoPanic.getS : NoPanic getS := fun c => ⟨_, c, rfl⟩
+theorem NoPanic.modS (f : State → State) : NoPanic (modS f) := fun c => ⟨_, _, rfl⟩
+theorem NoPanic.getRef (r : Nat) : NoPanic (getRef r) := by
+  unfold Session.getRef; exact NoPanic.bind NoPanic.getS (fun _ => NoPanic.pure _)
+theorem NoPanic.setRef (r : Nat) (f : Ref → Ref) : NoPanic (setRef r f) := NoPanic.modS _
+theorem NoPanic.setNode (n : Nat) (f : Node → Node) : NoPanic (setNode n f) := NoPanic.modS _
+theorem NoPanic.callClose (h : Nat) : NoPanic (callClose h) := fun c => ⟨_, _, rfl⟩
+
+/-- `DecRef` (hence every deferred cleanup and `stop()`) never panics in the model: `Close`'s
+error is returned, never thrown. -/
+theorem NoPanic.decRef (fuel r : Nat) : NoPanic (decRef fuel r) := by
+  induction fuel generalizing r with
+  | zero => exact NoPanic.pure _
+  | succ f ih =>
+    unfold Session.decRef
+    refine NoPanic.bind (NoPanic.getRef r) (fun x => NoPanic.bind (NoPanic.setRef _ _) (fun _ => ?_))
+    refine NoPanic.ite ?_ (NoPanic.pure _)
+    refine NoPanic.bind (NoPanic.setRef _ _) (fun _ => NoPanic.bind (NoPanic.callClose _) (fun e => ?_))
+    split
+    · exact NoPanic.pure _
+    · refine NoPanic.bind (NoPanic.getRef _) (fun px => NoPanic.bind ?_ (fun _ => ?_))
+      · unfold removeChild; exact NoPanic.setNode _ _
+      · exact NoPanic.bind (ih _) (fun _ => NoPanic.pure _)
+
+end P9.Session
